@@ -104,7 +104,7 @@ def cases_for(rng, tier):
 
 
 def run(ctx):
-    return histcheck.run(ctx, cases_for(ctx.rng, ctx.tier), "C03", tags={"tree", "must-fail-accepted"}, known=KNOWN, unit_modules=["c03unit", "c03wire"],
+    return histcheck.run(ctx, cases_for(ctx.rng, ctx.tier), "C03", tags={"tree", "must-fail-accepted"}, known=KNOWN, unit_modules=["c03unit", "c03wire", "c03file"],
                          rule_extra="C03 cases: creation sequences (5..80 calls) in deep (depth<=6), wide (beyond the 32-entry group capacity), "
                                     "long-name (filling the 256-byte name heap) and mixed modes with duplicate, missing-parent and malformed-path "
                                     "requests and hard links to datasets (incl. targets whose header chunk is nearly full); leaves also through CreateCompoundDataset and the array/enum/opaque/reference/variable-length "
